@@ -283,6 +283,9 @@ pub fn run(run: &mut Run, args: &Args) {
             "-trycast"
         } else if cs0.contains("in-list") {
             "-inlist"
+        } else if (cs0.contains("case-searched") || cs0.contains("case-simple") || cs0.contains("coalesce")) && (cs0.contains("cast") || cs0.contains("div-mod")) {
+            // boolean CASE / COALESCE rewritten into AND/OR: guarded fallible branches become unguarded
+            "-case-fallible"
         } else {
             ""
         };
